@@ -85,6 +85,7 @@ def run_case(case, name):
 
     rec = {"trace": [], "outs": [], "ntfs": [], "snaps": [], "notes": [], "log": []}
     prog = case["prog"]
+    slow_ms = case.get("slow_handler_ms", 0)      # each handler takes that long (keeps a free-running model slow)
     lock = threading.Lock()
 
     NT = [(ReplicationInterface.START_REPLICATION_EVENT, "startrepl"),
@@ -248,6 +249,8 @@ def run_case(case, name):
                 rec["log"].append(["exec", k, to_q(sim.simulator_time)])
             if gates:
                 gate_point("exec", k)
+            if slow_ms:
+                time.sleep(slow_ms / 1000.0)
             self.interp(h)
 
         def interp(self, h):
@@ -294,15 +297,18 @@ def run_case(case, name):
     def snapshot(c, r, quiet):
         live = sum(1 for w in workers() if w.is_alive())
         sn = [r, sim.run_state.name, sim.replication_state.name, to_q(sim.simulator_time),
-              sim.eventlist().size(), live, bool(quiet)]
+              sim.eventlist().size(), live, None if quiet is None else bool(quiet)]
         rec["snaps"].append(sn)
         with lock:
             rec["log"].append(["cmd", c] + sn)
 
+    rapid = bool(case.get("rapid"))
+
     def run_seq(cmds):
         for c in cmds:
             r = issue(c)
-            quiet = settle()
+            # "rapid" cases issue the next command as soon as start() has returned
+            quiet = None if (rapid and c[0] == "start" and r == "ok") else settle()
             if c[0] in ("init", "cleanup", "initbad"):
                 subscribe()
             snapshot(c, r, quiet)
